@@ -411,7 +411,29 @@ class C07(Property):
         src.append('def noNetlocSchemes : List String := [')
         src.append(',\n'.join('  "%s"' % k for k in nonet) + ']')
         src.append('end C07.Gen')
-        return {'C07_Schemes.lean': '\n'.join(src) + '\n'}
+        nav = ['/- GENERATED by harness/bv/props/c07.py (regen) by evaluating boltons.urlutils.URL.navigate of the tree '
+               'under test\n   on the probes of known finding C07-empty-query - do not edit -/',
+               'namespace C07.Gen',
+               '/-- does `navigate` let a present-but-empty query of the reference (`?`, `?#s`) replace the base query? -/',
+               'def navHonoursEmptyQuery : Bool := %s' % ('true' if self.nav_honours_empty_query() else 'false'),
+               'end C07.Gen']
+        return {'C07_Schemes.lean': '\n'.join(src) + '\n', 'C07_Nav.lean': '\n'.join(nav) + '\n'}
+
+    @staticmethod
+    def nav_honours_empty_query():
+        """which of the two modelled versions of URL.navigate the tree under test has (C07.Gen.navHonoursEmptyQuery):
+        decided by evaluating it on the probes of known finding C07-empty-query; the answers must be unanimous"""
+        from boltons.urlutils import URL
+        votes = set()
+        for base in ('http://a/b?q=1', 'https://h.example?k=1&k=2'):
+            for ref in ('?', '?#s'):
+                for as_obj in (False, True):
+                    with time_limit(10):
+                        got = URL(base).navigate(URL(ref) if as_obj else ref)
+                    votes.add(not got.query_params)
+        if len(votes) != 1:
+            raise ValueError('URL.navigate treats a present-but-empty query inconsistently across the probes')
+        return votes.pop()
 
     def extra_checks(self):
         """the generated tables, as the compiled driver sees them, against the live module objects"""
@@ -422,7 +444,9 @@ class C07(Property):
             return []
         out = d.query(['tables'])[0]
         want = 'P ' + ','.join('%s:%d' % (k, v or 0) for k, v in sorted(urlutils.SCHEME_PORT_MAP.items())) + \
-               ' N ' + ','.join(sorted(urlutils.NO_NETLOC_SCHEMES))
+               ' N ' + ','.join(sorted(urlutils.NO_NETLOC_SCHEMES)) + \
+               ' Q ' + ('1' if self.nav_honours_empty_query() else '0')
+        self.stats['navigate_version'] = 'repaired (35ff68e)' if want.endswith('1') else 'unrepaired'
         if out != want:
             raise InfraError('generated scheme tables differ from the live module: %r vs %r' % (out[:200], want[:200]))
         # the desugaring pre-pass of the source translator (harness/py2lean_prepass.py): rewritten functions
@@ -708,7 +732,8 @@ class C07(Property):
     def line(self, case):
         if not in_model_domain(case['base']) or not all(in_model_domain(r) for r in case['refs']):
             return None
-        return ' '.join(['nav', enc_components(case['base'])] + [enc_components(r) for r in case['refs']])
+        api = ',A' if case.get('as_url') == 2 else ''
+        return ' '.join(['nav', enc_components(case['base'])] + [enc_components(r) + api for r in case['refs']])
 
     # ------------------------------------------------------------------ implementation
     @staticmethod
@@ -880,6 +905,10 @@ class C07(Property):
                 return Failure('raises', 'navigate(%r) from %r raised %s' % (compose(r), cur, gd['exc']))
             got = gd['text']
             rt = compose(r)
+            if case.get('as_url') == 2 and not own_pairs(full(r)['query']):
+                # the object handed to navigate() was parsed WITHOUT a query component and received no parameter
+                # through the API: it is the reference without '?', whatever the case dictionary spells
+                rt = compose(dict(full(r), query=None))
             # once a step falls outside the statement's domain the rest of the history is not judged against
             # the RFC (the implementation's text need not parse back to the object it came from)
             kind = self.step_in_domain(cur, rt) if synced else None
